@@ -115,7 +115,8 @@ theorem feed_event_ok (env : Env) (d : DNode) (i : Input) (hd : DNodeOK env d) (
 /-! ## the network of machines is simulated by the abstract system -/
 
 /-- all validators' executable environments agree with the abstract one -/
-def NetOK (N : NetEnv) : Prop := N.E.WF ∧ ∀ p, EnvOK N.E (N.envOf p)
+def NetOK (N : NetEnv) : Prop :=
+  N.E.WF ∧ (∀ p, EnvOK N.E (N.envOf p) N.excl) ∧ ∀ a, N.excl a → N.E.byz a
 
 /-- the history contains no message that the sender's machine did not broadcast -/
 structure HistComplete (net : Net) (H : Hist) : Prop where
@@ -159,14 +160,16 @@ theorem deliverable_auth (N : NetEnv) (net : Net) (s : Sys) (hinv : NetInv N net
 /-- one call of the driver into validator `p`'s machine, simulated -/
 theorem net_feed (N : NetEnv) (ok : NetOK N) (net : Net) (s : Sys) (hinv : NetInv N net s) (p : Addr)
     (hb : ¬ N.E.byz p) (i : Input) (hok : InputOK (net.node p).m i)
-    (hdel : ∀ c, RecvOf i c → Deliverable N.E net c)
+    (hdel : ∀ c, RecvOf i c → Deliverable N.E net c ∧ Passes N.excl c)
     (hdn : DNodeOK (N.envOf p) ((net.node p).feed (N.envOf p) i)) :
     ∃ s', NetInv N (net.set p ((net.node p).feed (N.envOf p) i)) s' := by
   obtain ⟨hsim, hn, hrec, _⟩ := hinv.node p hb
   have hb' : ¬ N.E.byz (net.node p).m.nodeAddr := by rw [hn]; exact hb
   obtain ⟨s', hsteps, hsim', hn', hoth, hle, hrec', hfrom⟩ :=
-    step_sim N.E (N.envOf p) (ok.2 p) ok.1 s (net.node p).m i hb' hsim hok
-      (fun c hc => deliverable_auth N net s hinv c (hdel c hc))
+    step_sim N.E (N.envOf p) (ok.2.1 p) ok.1 s (net.node p).m i hb' (fun hx => hb' (ok.2.2 _ hx)) hsim hok
+      (fun c hc => ⟨deliverable_auth N net s hinv c (hdel c hc).1, by
+        have := (hdel c hc).2
+        cases c <;> first | exact this | trivial⟩)
   rw [hn] at hfrom
   have hout : ∀ a x, x ∈ (net.node a).out →
       x ∈ ((net.set p ((net.node p).feed (N.envOf p) i)).node a).out := by
@@ -275,11 +278,11 @@ theorem net_validity (N : NetEnv) (ok : NetOK N) (net : Net) (hr : NetReach N ne
       q'.height = q.height ∧ q'.round = q.round ∧ q'.value = q.value ∧ q'.sender = q.sender) := by
   obtain ⟨s, hi⟩ := net_reach_inv N ok net hr
   have h1 := (hi.node p hp).2.2.2.2.2 q hq
-  rw [(ok.2 p).valid, (ok.2 p).proposer]
+  rw [(ok.2.1 p).valid, (ok.2.1 p).proposer]
   refine ⟨h1.1, h1.2, ?_⟩
   have d : s.hist.decision p q.height q.round q.value := (hi.node p hp).2.2.1 _ hq
   obtain ⟨_, _, hprop⟩ := (inv_reach N.E N.h0 s hi.reach p hp).decided _ _ _ d
-  have hs : q.sender = N.E.proposer q.height q.round := by rw [(ok.2 p).proposer]; exact h1.2
+  have hs : q.sender = N.E.proposer q.height q.round := by rw [(ok.2.1 p).proposer]; exact h1.2
   rw [← hs] at hprop
   rcases hprop with hb | hh
   · exact Or.inl hb
